@@ -1,6 +1,8 @@
 #!/bin/bash
 # tools_seeded.sh <seeded-dir> [checks...]: apply <dir>/patch.diff to /repo, run the quick checks,
 # write <dir>/detection.json (which checks raise an alarm), undo the patch. Never commits to /repo.
+# DET_ROOT (default /verif) may name a git worktree of /verif's HEAD, so that detection runs use the committed
+# machinery while /verif's working tree is being edited.
 set -u
 D="$(cd "$1" && pwd)"; shift
 CHECKS="${*:-C01 C02 C03 C04 C05 C06 C07 C08 C11 C12 C13 C16 C17 C18 C19 C20}"
@@ -10,7 +12,7 @@ git apply --check "$D/patch.diff" || { echo "patch does not apply"; exit 2; }
 git apply "$D/patch.diff"
 OUT="$D/detection.json"; TMPR=$(mktemp)
 for c in $CHECKS; do
-  log=$(cd /verif && VERIF_DIR=/tmp/seeded-run ./check "$c" quick 2>&1); code=$?
+  log=$(cd "${DET_ROOT:-/verif}" && VERIF_DIR=/tmp/seeded-run ./check "$c" quick 2>&1); code=$?
   v=$(echo "$log" | grep -m1 "^violation:" | cut -c1-400)
   printf '%s\t%d\t%s\n' "$c" "$code" "$v" >> "$TMPR"
   echo "$c exit=$code $v"
